@@ -13,6 +13,7 @@ Decided (shared with C08/C09 through the functions below):
   R07.4  the dependency bound is a max-accumulator over all edges, gap added before the comparison (= C04 R04.2 forward)
   R07.5  a team is booked only when every member is available and within the task limits for the slot (= C03 R03.1)
   R07.6  a slot is booked only under the availability and task-limit facts for that slot and resource (= C03 R03.6)
+  R07.7  "within limits": the daily / weekly limit period of a slot is its calendar day / week (= C05 R05.6)
 Not decided: equality with an independent reference scheduler — a relation between computed values that
 no static argument in reach can establish.
 """
@@ -302,6 +303,9 @@ def run(ctx: Ctx):
     forward_bound_accumulator(ctx, "R07.4")
     team_gate_rules(ctx, "R07.5")
     booking_guard_rule(ctx, "R07.6")
+    from .c05 import period_index_rule
+    period_index_rule(ctx, "R07.7")
+    ctx.floor("R07.7", 2)
     ctx.floor("R07.4", 8)
     ctx.floor("R07.5", 5)
     ctx.floor("R07.6", 1)
